@@ -79,8 +79,7 @@ def run_case(case, ctx):
 				args += paths
 			else:
 				lf = os.path.join(d, 'list.txt')
-				with open(lf, 'w', encoding='utf-8') as f:
-					f.write('\n'.join(rel) + '\n')
+				H.write_listfile(lf, rel, case.get('list_style', 0))
 				args += ['-l', lf, '--ldir', os.path.join(d, 'base')]
 		if case['cores'] is not None:
 			args += ['-c', str(case['cores'])]
@@ -204,6 +203,7 @@ def gen_case(draw, tier):
 		'int_ids': draw(st.booleans()),
 		'allow_dup_labels': draw(st.integers(0, 9)) == 9,
 		'cores': draw(st.sampled_from([None, 1, 4, None])),
+		'list_style': draw(st.integers(0, 4)),
 	}
 
 
